@@ -269,6 +269,17 @@ def hidden_cases():
                 bql.select([(col('a'), None)], frm, where=['gt', col('b'), ['const', 'int', 0]]),
                 bql.select([(col('c'), None)], frm, where=['eq', col('d'), ['const', 'str', 'z']]),
                 bql.select([(col('a'), None), (['fn', 'count', [['star']]], 'n')], frm, group_by=[col('a'), col('b')])]
+    # membership in an ordered and cut sub-select: which rows survive the LIMIT depends on the order (also on hidden keys)
+    frm = ('table', 'm')
+    for d in ('ASC', 'DESC'):
+        for lim in (1, 3, 5):
+            for key in ([(col('x'), d), (col('rid'), 'ASC')], [(col('y'), d), (col('rid'), d)], [(['neg', col('rid')], d)]):
+                inner = bql.select([(col('rid'), 'r')], frm, order_by=key, limit=lim)
+                out.append(bql.select([(col('rid'), None), (['in', col('rid'), ['subq', inner]], 'member')], frm))
+                out.append(bql.select([(col('rid'), None)], frm, where=['notin', col('rid'), ['subq', inner]]))
+            inner = bql.select([(col('x'), None)], frm, where=['isnotnull', col('x')], order_by=[(col('y'), d), (col('rid'), 'ASC')],
+                               limit=lim, distinct=True)
+            out.append(bql.select([(col('rid'), None)], frm, where=['in', col('y'), ['subq', inner]]))
     return [{'tables': [table], 'sel': harness.force_aliases(s), 'text': bql.statement(s), 'via_ast': i % 2 == 0} for i, s in enumerate(out)]
 
 
